@@ -6,6 +6,7 @@ import (
 	"fmt"
 	"io"
 	"os"
+	"os/exec"
 	"path/filepath"
 	"runtime"
 	"testing"
@@ -302,5 +303,203 @@ func gen1(t *rapid.T) Case {
 var prop = stats.Prop(R, "return", gen1, check)
 
 func TestReturn(t *testing.T) { rapid.Check(t, prop) }
+
+// Operating-system pipe: the writer handed to the application is the write end of a real pipe (an
+// *os.File, as standard output is), hundreds of kilobytes are written, and the reader at the other end
+// stops reading for seconds in the middle (a pager, a slow downstream program).  When HandleMessages has
+// returned and the write end is closed, the reader must have received the complete output.
+type PipeCase struct {
+	App     string     `json:"app"`
+	Stream  gen.Stream `json:"stream"`
+	StallAt int        `json:"reader_stalls_after_bytes"`
+	StallMs int        `json:"reader_stall_ms"`
+}
+
+func checkPipe(c PipeCase, o *stats.Obs) error {
+	input := c.Stream.Bytes()
+	var want []byte
+	if c.App == "rtcmfilter" {
+		want, _, _ = appsup.ValidFrames(input)
+	} else if c.App == "displayrtcm3" {
+		msgs, ok := appsup.Sequential(input, drive.StartTime)
+		if !ok {
+			o.Skip = true
+			return nil
+		}
+		hw := &appsup.LatencyWriter{}
+		select {
+		case <-run(c.App, nil, hw):
+		case <-time.After(20 * time.Second):
+			o.Skip = true
+			return nil
+		}
+		want = append(hw.Snapshot(), appsup.DisplayOf(msgs)...)
+	} else {
+		o.Skip = true
+		return nil
+	}
+	r, w, err := os.Pipe()
+	if err != nil {
+		o.Skip = true
+		return nil
+	}
+	defer r.Close()
+	prog := &appsup.Progress{}
+	var got []byte
+	readerDone := make(chan struct{})
+	go func() {
+		defer close(readerDone)
+		buf := make([]byte, 32768)
+		stalled := false
+		for {
+			n, err := r.Read(buf)
+			got = append(got, buf[:n]...)
+			if n > 0 {
+				prog.Tick()
+			}
+			if err != nil {
+				return
+			}
+			if !stalled && len(got) >= c.StallAt {
+				stalled = true
+				time.Sleep(time.Duration(c.StallMs) * time.Millisecond)
+			}
+		}
+	}()
+	done := run(c.App, input, w, Case{Closable: true})
+	if !appsup.AwaitProgress(done, prog, 30*time.Second+time.Duration(c.StallMs)*time.Millisecond) {
+		w.Close()
+		o.Key = c.App + "/no-return"
+		return fmt.Errorf("%s writing to an operating-system pipe: HandleMessages neither returned nor wrote anything for 30 s (reader stalled for %d ms after %d bytes; output so far %d of %d bytes)", c.App, c.StallMs, c.StallAt, len(got), len(want))
+	}
+	w.Close()
+	select {
+	case <-readerDone:
+	case <-time.After(30 * time.Second):
+		o.Skip = true
+		return nil
+	}
+	if !bytes.Equal(got, want) {
+		o.Key = c.App + "/pipe-output-incomplete"
+		return fmt.Errorf("%s writing %d bytes to an operating-system pipe whose reader stalled for %d ms after %d bytes: what the reader received up to the close after HandleMessages returned differs from the complete output: %s", c.App, len(want), c.StallMs, c.StallAt, appsup.Diff(got, want))
+	}
+	o.NonTrivial = len(want) > 131072
+	o.Class(c.App + "/os-pipe")
+	return nil
+}
+
+func genPipe(t *rapid.T) PipeCase {
+	c := PipeCase{App: rapid.SampledFrom([]string{"displayrtcm3", "displayrtcm3", "rtcmfilter"}).Draw(t, "app"), StallMs: 2500}
+	n := 120
+	if c.App == "rtcmfilter" {
+		n = 1500
+	}
+	for i := 0; i < n; i++ {
+		m, _ := gen.MSM(t, rapid.SampledFrom([]string{"8x8", "1xk", "sparse"}).Draw(t, "shape"), 3)
+		c.Stream.Segs = append(c.Stream.Segs, gen.Segment{Kind: "valid", Data: m.Frame()})
+		if i%7 == 3 {
+			c.Stream.Segs = append(c.Stream.Segs, gen.Segment{Kind: "junk", Data: gen.Junk(t, false, 30)})
+		}
+	}
+	c.StallAt = rapid.SampledFrom([]int{1, 70000, 140000, 200000}).Draw(t, "stallAt")
+	return c
+}
+
+var propPipe = stats.Prop(R, "os-pipe", genPipe, checkPipe)
+
+func TestOSPipe(t *testing.T) { rapid.Check(t, propPipe) }
+
+// The displayrtcm3 program itself, run over a finite file: what it has written to its standard output when
+// it has exited must be the complete display - the same bytes its message-handling function writes in-process
+// for the same input and start date (which the return leg holds against the library's display).
+type ProgCase struct {
+	Stream gen.Stream `json:"stream"`
+	Stdout string     `json:"stdout"` // "file" | "pipe"
+}
+
+var progNo int
+
+func checkProg(c ProgCase, o *stats.Obs) error {
+	bin := os.Getenv("VERIF_APP_DISPLAYRTCM3")
+	if bin == "" {
+		o.Skip = true
+		return nil
+	}
+	input := c.Stream.Bytes()
+	start := time.Date(2023, 5, 10, 0, 0, 0, 0, time.UTC)
+	ew := &appsup.LatencyWriter{}
+	inproc := make(chan struct{})
+	go func() {
+		displayrtcm3.HandleMessages(start, bytes.NewReader(input), ew, &jsonconfig.Config{})
+		close(inproc)
+	}()
+	select {
+	case <-inproc:
+	case <-time.After(60 * time.Second):
+		o.Skip = true
+		return nil
+	}
+	want := ew.Snapshot()
+	progNo++
+	dir := filepath.Join(os.Getenv("VERIF_SCRATCH"), fmt.Sprintf("c11-prog-%d", progNo))
+	if os.Getenv("VERIF_SCRATCH") == "" {
+		dir, _ = os.MkdirTemp("", "c11-prog-")
+	}
+	os.MkdirAll(dir, 0o755)
+	defer os.RemoveAll(dir)
+	file := filepath.Join(dir, "data.rtcm")
+	os.WriteFile(file, input, 0o644)
+	cmd := exec.Command(bin, file, "2023-05-10")
+	cmd.Dir = dir
+	cmd.Env = append(os.Environ(), "TZ=UTC")
+	var got []byte
+	var err error
+	if c.Stdout == "pipe" {
+		got, err = cmd.Output()
+	} else {
+		outFile := filepath.Join(dir, "stdout.txt")
+		f, ferr := os.Create(outFile)
+		if ferr != nil {
+			o.Skip = true
+			return nil
+		}
+		cmd.Stdout = f
+		err = cmd.Run()
+		f.Close()
+		got, _ = os.ReadFile(outFile)
+	}
+	if err != nil {
+		o.Key = "displayrtcm3-program/exit"
+		return fmt.Errorf("the displayrtcm3 program failed on a finite file: %v (input %x)", err, input)
+	}
+	if !bytes.Equal(got, want) {
+		o.Key = "displayrtcm3-program/output-incomplete"
+		return fmt.Errorf("the displayrtcm3 program, run over a finite file of %d bytes (stdout: %s): its standard output at exit differs from the complete display (%d bytes): %s", len(input), c.Stdout, len(want), appsup.Diff(got, want))
+	}
+	o.NonTrivial = len(want) > 0
+	if len(want) > 65536 {
+		o.Class("displayrtcm3-program/output>64KiB")
+	}
+	o.Class("displayrtcm3-program/stdout-" + c.Stdout)
+	return nil
+}
+
+func genProg(t *rapid.T) ProgCase {
+	c := ProgCase{Stdout: rapid.SampledFrom([]string{"file", "pipe"}).Draw(t, "stdout")}
+	c.Stream = gen.AnyStream(t, gen.Weights{Valid: 8, Junk: 3, JunkD3: 1, Corrupt: 2, Truncated: 1, Near: 1, Raw: 1}, 8, 50)
+	if rapid.Bool().Draw(t, "big") { // more than one 64 KiB buffer of display
+		n := rapid.IntRange(20, 60).Draw(t, "nMSM")
+		for i := 0; i < n; i++ {
+			m, _ := gen.MSM(t, rapid.SampledFrom([]string{"8x8", "1xk", "sparse"}).Draw(t, "shape"), 3)
+			c.Stream.Segs = append(c.Stream.Segs, gen.Segment{Kind: "valid", Data: m.Frame()})
+		}
+	}
+	c.Stream.Segs = append(c.Stream.Segs, gen.Segment{Kind: "valid", Data: gen.ValidFrame(t, 50)})
+	return c
+}
+
+var propProg = stats.Prop(R, "program", genProg, checkProg)
+
+func TestProgram(t *testing.T) { rapid.Check(t, propProg) }
 
 func TestReplay(t *testing.T) { R.Replay(t) }
